@@ -208,6 +208,10 @@ func (fr *frame) visit(instr ssa.Instruction) cont {
 	switch instr := instr.(type) {
 	case *ssa.DebugRef:
 	case *ssa.UnOp:
+		if g, ok := instr.X.(*ssa.Global); ok && instr.Op == token.MUL && !r.eng.initPkgs[g.Pkg.Pkg.Path()] && !r.gwritten[g] {
+			// never a silent zero value: the package's initialiser was not run
+			panic(unsupported("read of global %s (initialiser of its package is not executed)", g))
+		}
 		fr.env[instr] = r.unop(instr, fr.get(instr.X))
 	case *ssa.BinOp:
 		fr.env[instr] = r.binop(instr.Op, instr.X.Type(), fr.get(instr.X), fr.get(instr.Y))
@@ -253,6 +257,12 @@ func (fr *frame) visit(instr ssa.Instruction) cont {
 	case *ssa.Select:
 		fr.env[instr] = r.selectStmt(fr, instr)
 	case *ssa.Store:
+		if g, ok := instr.Addr.(*ssa.Global); ok {
+			if r.gwritten == nil {
+				r.gwritten = map[*ssa.Global]bool{}
+			}
+			r.gwritten[g] = true
+		}
 		store(fr.get(instr.Addr).(Ptr), fr.get(instr.Val))
 	case *ssa.If:
 		c := fr.get(instr.Cond).(BoolV)
